@@ -77,12 +77,19 @@ package f32
 //@ func Sum props: C07(safety) C08
 //@ writes nothing
 
+// the 2-norm propagates NaN: a NaN element gives a NaN result wherever it stands
 //@ func L2NormUnitary props: C07(safety) C08
+//@ floats: ieee
 //@ writes nothing
+//@ ensures exists(k, 0, len(x), isNaN(x[k])) ==> isNaN(result)
+//@ loop 1: invariant forall(k, 0, it, !isNaN(x[k]))
 
 //@ func L2NormInc props: C07(safety) C08
+//@ floats: ieee
 //@ requires int(n) >= 0 && int(incX) >= 1 && strided(x, 0, int(n), int(incX))
 //@ writes nothing
+//@ ensures exists(k, 0, int(n), isNaN(x[k*int(incX)])) ==> isNaN(result)
+//@ loop 1: invariant forall(k, 0, it, !isNaN(x[k*int(incX)]))
 
 //@ func L2DistanceUnitary props: C07(safety) C08
 //@ requires len(y) >= len(x)
